@@ -322,9 +322,23 @@ def _with_types(program, typedefs, repo):
         return None
     lines = ["types"]
     for v, vals in sorted(typedefs.items()):
-        lines.append(f"    {v} : Finite({', '.join(vals)})")
+        ints = []
+        try:
+            ints = sorted(int(x) for x in vals)
+        except ValueError:
+            pass
+        if len(ints) >= 2 and ints == list(range(ints[0], ints[-1] + 1)) and (hash_free_coin(v, vals)):
+            # the same set written as a range
+            lines.append(f"    {v} : FiniteRange({ints[0]}, {ints[-1]})")
+        else:
+            lines.append(f"    {v} : Finite({', '.join(vals)})")
     lines.append("end")
     return {"text": "\n".join(lines) + "\n" + text}
+
+
+def hash_free_coin(v, vals):
+    """a deterministic coin that does not depend on PYTHONHASHSEED"""
+    return hashlib.sha256((v + "|" + ",".join(vals)).encode()).digest()[0] % 2 == 0
 
 
 def _rel_dev(ca, cb, upto=8):
